@@ -253,6 +253,9 @@ func runC07(r *Run) {
 
 	// ---- the integrity check's verdict depends on the covered span only (shared with C04.span)
 	r.Borrow("C04", map[string]string{"C04.span": "C07.span"})
+	// the integrity check's verdict depends on the key's bytes at the time of the call only: the HMAC implementation
+	// neither writes nor retains the caller's key (shared with C04/C18)
+	r.Borrow("C04", map[string]string{"C04.key": "C07.key"})
 
 	// ---- fresh: a reused destination carries nothing of its previous content
 	fr := r.Rule("C07.fresh", "on every path of a typed getter with a pointer receiver that reports success, every field of the destination (or the destination itself) has been assigned, directly or by the getter it delegates to: the result is a function of the message only, not of what the destination held before", 8)
@@ -499,6 +502,29 @@ func checkHelperConds(r *Run, rc *RuleCtx) map[string]string {
 		}
 		if s != helperReference[name] {
 			rc.Violation(fn, fn.Pos(), "nil-return condition "+s, fmt.Sprintf("%s must return nil exactly when %s; in this build configuration it returns nil when %s", name, helperReference[name], s))
+		}
+	}
+	// every other function that exists in a release and a debug variant and returns an error: its nil-return
+	// condition is recorded, and the parent compares the two variants with each other
+	{
+		var names []string
+		for n := range tagSiblings[modulePath] {
+			names = append(names, n)
+		}
+		sort.Strings(names)
+		for _, name := range names {
+			if _, named := helperReference[name]; named {
+				continue
+			}
+			fn := p.Fn(name)
+			if fn == nil || fn.Blocks == nil || errorResultIndex(fn) < 0 {
+				continue
+			}
+			r.Analysed(fn)
+			if s, ok := nilCondString(p, fn); ok {
+				out[name] = s
+				rc.Instance(name, true, map[string]string{"helper": name, "returns_nil_iff": s, "compared": "between the release and the debug variant"})
+			}
 		}
 	}
 	// hmac.Equal is constant-time comparison == 1
@@ -842,6 +868,16 @@ func checkFresh(r *Run, rc *RuleCtx, cl *closures) {
 // checkAliasDest: a destination slice field that a getter writes in place (element stores, copy, XorBytes
 // or append onto the field's own storage) must never be made to view the message: the next decode into
 // the same destination would then write into the message it read before.
+// viaField: v is the slice held by field fv, or a local working copy of it (reslices, appends onto it, merges
+// of these): writing through v writes the storage the field holds or is about to be given back.
+func viaField(v ssa.Value, fv *types.Var) bool {
+	if valueIsLoadOfField(sliceRoot(v), fv) {
+		return true
+	}
+	clamp := false
+	return fv != nil && derivedFromField(v, fv, 0, map[ssa.Value]bool{}, &clamp)
+}
+
 func checkAliasDest(r *Run, rc *RuleCtx, cl *closures, getM *ssa.Function) {
 	p := r.P
 	msg := p.Named("Message")
@@ -869,16 +905,16 @@ func checkAliasDest(r *Run, rc *RuleCtx, cl *closures, getM *ssa.Function) {
 			eachInstr(fn, func(b *ssa.BasicBlock, i int, in ssa.Instruction) {
 				switch x := in.(type) {
 				case *ssa.Store:
-					if ia, isIA := x.Addr.(*ssa.IndexAddr); isIA && valueIsLoadOfField(ia.X, fv) {
+					if ia, isIA := x.Addr.(*ssa.IndexAddr); isIA && viaField(ia.X, fv) {
 						writer = in
 					}
 				case *ssa.Call:
 					switch {
-					case isBuiltinCall(x, "copy") && valueIsLoadOfField(sliceRoot(x.Call.Args[0]), fv):
+					case isBuiltinCall(x, "copy") && viaField(x.Call.Args[0], fv):
 						writer = in
-					case isBuiltinCall(x, "append") && valueIsLoadOfField(sliceRoot(x.Call.Args[0]), fv):
+					case isBuiltinCall(x, "append") && viaField(x.Call.Args[0], fv):
 						writer = in
-					case isPkgFuncCall(x, "github.com/pion/transport/v3/utils/xor", "XorBytes") && valueIsLoadOfField(sliceRoot(x.Call.Args[0]), fv):
+					case isPkgFuncCall(x, "github.com/pion/transport/v3/utils/xor", "XorBytes") && viaField(x.Call.Args[0], fv):
 						writer = in
 					}
 				}
